@@ -1,5 +1,14 @@
 """Human-written level texts for MANIFEST.json."""
 META = {
+    "C13": dict(
+        text="Proof: for every tree shape, acceptance by the Lean model of validate implies every clause of consistency except global id uniqueness "
+             "(accept_sound: registered source/nodes/handlers, parent-child type compatibility, handler rules, transport) and id uniqueness along every "
+             "first-child spine across roots (accepted_spine_unique, via an exact characterisation of the code's walk: uniqCode_iff, uniqRoots_iff); defaults are "
+             "filled everywhere and the timeout defaulted (defaults_filledN/L/O, accepted_defaults). The full equivalence is FALSE on the unchanged code: "
+             "sibling_duplicate_accepted is a kernel-checked witness (known finding F1, replayed through config.Read). Tied to config.Read by generated YAML files.",
+        note="Trusted: Lean kernel, model transcription, YAML parser and env expansion (exercised only), harness registry. Known finding F1 is listed in known_findings.json; "
+             "any other violation (e.g. a duplicate ON a first-child spine accepted) is still reported.",
+    ),
     "C10": dict(
         text="Proof: for every history (any order/repetition of end-of-partition signals) the Lean model of the receiver delivers nothing until the number of "
              "DISTINCT partitions that signalled reaches the partition count (silent_until_caught_up, released_only_when_all, eofs_nodup), holds until then "
